@@ -44,11 +44,11 @@ PROPS = {
     'C04': dict(units=['driver', 'utils', 'dfa', 'dfa@small', 'buffers', 'terms', 'values'], static=[SF.buffers_static],
                 claim='whitespace skipping is exactly the documented sets; the lexer is asked once at the skipped position with the whole rest of the buffer; the lexeme is exactly [current_it, current_it+len); a failure result yields one Unexpected character report',
                 assumptions=[LEXER, 'longest match/first-listed priority of the automaton itself: unit dfa (dfa_match/run); the union automaton built by merging is not verified (finding D10)']),
-    'C06': dict(units=['driver', 'stdex', 'utils', 'regex_lexer', 'dfa', 'values', 'cvec_iter'], all=['driver', 'stdex'],
+    'C06': dict(units=['driver', 'stdex', 'utils', 'regex_lexer', 'dfa', 'values', 'cvec_iter', 'state_analyzer'], all=['driver', 'stdex'],
                 claim='every CBMC safety check (bounds, pointer validity/overflow, signed/unsigned overflow, division) plus the logical bounds woven by R9/R7 on every parse-path function under its precondition; recovery pops and input discarding strictly progress',
                 assumptions=[L_PATH, L_IDS, TABLE_WF, LEXER, 'termination of a run of reductions that consume nothing (no reduce cycle in a conflict-free table) is not mechanised',
                              'std::vector / std::string stacks and buffers are trusted; the proof is for the cvector stacks']),
-    'C08': dict(units=['driver', 'state_analyzer', 'glue'],
+    'C08': dict(units=['driver', 'state_analyzer', 'glue', 'state_analyzer@small'],
                 claim='step relation of the driver loop written from the documented recovery algorithm: enter (one message, nothing discarded), pop (one state and its value), shift of the error symbol, input discarding, exits',
                 assumptions=[L_PATH, L_IDS, TABLE_WF, LEXER]),
     'C09': dict(units=['driver', 'terms', 'values', 'glue', 'dfa', 'utils'],
@@ -57,7 +57,15 @@ PROPS = {
     'C10': dict(units=['driver', 'values'],
                 claim="source_point::update follows the statement's rule byte by byte; every advance of the parse position is paired with an update over exactly that range; values and messages carry the source point of the pending term's first byte",
                 assumptions=['line/column counters below 2^30 (cannot be reached with buffers <= 4096 bytes; the counters are 32-bit)', LEXER]),
-    'C14': dict(units=['driver', 'stdex', 'reductors', 'cvec_iter'],
+    'C13': dict(units=['ctxpath', 'entry', 'reductors', 'rules', 'driver'],
+                claim="link by link, on the value-category ghost of R20: the convenience overloads hand the caller's context (same object, same category) to the full context_parse, parse() hands the no_type context; the driver loop, rr_conflict and reduce each hand it on perfectly forwarded; value_reductors::invoke / reduce_value / reduce_value_impl pass it first to the rule's functor exactly when the rule was built with >>= (operator>>= sets RequiresContext, operator>= clears it) and not at all otherwise; reductions happen in the order the driver contract of C02 states",
+                assumptions=['identity and value category are ghost state (R20); constness of the referenced type and the template deduction of Context are C++ typing, checked by the compilers, not by this proof', R13,
+                             'that a functor which ignores its context computes the same value with any context is a property of the user functor', L_PATH]),
+    'C19': dict(units=['ftors'],
+                claim='the parameter list of every helper functor, parsed from the real text (R22), selects exactly the documented positions for every arity up to 9 and every valid position pair: _eX returns the X-th argument itself (same object, category, constness); construct<T, I> builds T from the I-th, forwarded; emplace_back<C, A> / push_back<C, A> append the A-th to the C-th (emplace_back: as a non-const rvalue, i.e. moved) and return the C-th as an rvalue of the same object (not a copy); val(v) yields v and create<T> a default T whatever the arguments are',
+                assumptions=['the lengths of the `ignore<...>` packs are the expressions in the primary templates\' default arguments `std::make_index_sequence<EXPR>` (grabbed from the text); that partial specialisation selects the specialisation whose pack has that length, and that overload resolution binds argument k to parameter k, is the C++ language (trusted)',
+                             'values are opaque (R13): what the container does with the appended element is the container\'s business (std::vector: trusted)']),
+    'C14': dict(units=['driver', 'stdex', 'reductors', 'cvec_iter', 'ftors'],
                 claim='driver-level linearity of value identifiers: ids on the stack are pairwise distinct, reduce erases exactly the slice it passed, pop_stacks discards, success returns the bottom; nothing reads an erased slot',
                 assumptions=[L_PATH, L_IDS, R13, 'rvalue passing, move-only types, moved-from reads inside reduce_value_impl and exactly-once destruction are C++ object semantics outside the verified text']),
     'C15': dict(units=['driver'], all=['driver'], static=[SF.c15_static],
